@@ -296,6 +296,66 @@ static void serve_once(Conn& c, const Bindings& b, Pass... pass) {
   c.reply_bytes_last = c.rep.buf.size() - before;
 }
 
+// ---------------------------------------------------------------- re-entrant dispatch
+// A handler that, while it runs, causes the SAME bound method to be dispatched again on the same thread (a proxy or a
+// recursive service): the arguments of the outer call - which the handler holds by reference - must still be the ones the
+// outer caller sent when the nested dispatch returns. Every nesting depth 0..3 x three path values x two binding kinds.
+struct IfR : nop::Interface<IfR> {
+  NOP_INTERFACE("verif.rpc.IfR");
+  NOP_METHOD(Describe, std::string(const std::string& path, int depth));
+  NOP_INTERFACE_API(Describe);
+};
+static std::function<void(Conn&)> g_serve_r;
+static std::string join(const std::vector<std::string>& v, const char* sep) { std::string o; for (auto& x : v) o += (o.empty() ? "" : sep) + x; return o; }
+static std::string nested_describe(const std::string& path, int depth) {
+  Conn c;
+  c.cr.on_dry = [&]() { if (!c.req.empty()) g_serve_r(c); };
+  auto sender = nop::MakeSimpleMethodSender(&c.cser, &c.cdes);
+  auto st = IfR::Describe::Invoke(&sender, path, depth);
+  if (!st) return "<nested Invoke failed " + std::to_string((int)st.error()) + ">";
+  if (!c.req.empty() || !c.rep.empty()) return "<nested connection out of frame>";
+  return st.get();
+}
+static std::string describe_body(const std::string& path, int depth, const char* suffix) {
+  std::string inner;
+  if (depth > 0) inner = nested_describe(path + "/" + std::to_string(depth), depth - 1);
+  g_log.push_back("Describe(" + path + "," + std::to_string(depth) + ")" + suffix);  // after the nested call: the references must still hold
+  return path + "[" + inner + "]";
+}
+static std::string h_describe(const std::string& path, int depth) { return describe_body(path, depth, ""); }
+struct SrvR {
+  int id = 5;
+  std::string OnDescribe(const std::string& path, int depth) { return describe_body(path, depth, "#5"); }
+};
+static std::string ref_describe(const std::string& path, int depth, std::vector<std::string>* log, const char* suffix) {
+  std::string inner;
+  if (depth > 0) inner = ref_describe(path + "/" + std::to_string(depth), depth - 1, log, suffix);
+  log->push_back("Describe(" + path + "," + std::to_string(depth) + ")" + suffix);
+  return path + "[" + inner + "]";
+}
+static void explore_reentrant(const char* tag, const char* suffix) {
+  for (int depth = 0; depth <= 3; depth++)
+    for (const std::string& path : {std::string("a"), std::string(40, 'p'), std::string()}) {
+      const std::string cid = std::string("C14|reentrant|") + tag + "|depth" + std::to_string(depth) + "|path" + std::to_string(path.size());
+      if (!R.want(cid)) continue;
+      R.counters["transitions"] += depth + 1;
+      R.counters["evaluations"] += depth + 1;
+      R.counters["states"]++;
+      R.nontrivial(cid);
+      g_log.clear();
+      std::vector<std::string> want_log;
+      const std::string want = ref_describe(path, depth, &want_log, suffix);
+      const std::string got = nested_describe(path, depth);
+      std::string why;
+      if (got != want) why = "Invoke returned '" + got.substr(0, 120) + "', the handlers' reference result is '" + want.substr(0, 120) + "'";
+      else if (g_log != want_log) why = "handler invocations (arguments as seen after the nested dispatch returned) were [" + join(g_log, ";").substr(0, 200) + "], expected [" + join(want_log, ";").substr(0, 200) + "]";
+      if (!why.empty()) {
+        R.outcome("MISMATCH");
+        R.viol(std::string("C14|reentrant|") + tag, cid, why, "{\"depth\":" + std::to_string(depth) + ",\"path_length\":" + std::to_string(path.size()) + "}");
+      } else R.outcome("reentrant-ok");
+    }
+}
+
 // ---------------------------------------------------------------- sequences of successful calls
 template <class Bindings, class... Pass>
 static void explore_sequences(const char* tag, const std::vector<CallOp>& ops, const Bindings& b, size_t depth, const char* suffix, Pass... pass) {
@@ -568,6 +628,19 @@ int main(int argc, char** argv) {
                                         // 2^32 + a bound selector and friends arrive as U64: not a valid encoding of a 32-bit selector at all
                                         {65536, 1, 126, 129, 0xfffffffeULL, (1ULL << 32) | 0, (1ULL << 32) | 127, (1ULL << 32) | 128, (7ULL << 32) | 0xffffffffULL,
                                          (1ULL << 63) | (std::uint64_t)If32::Named::Selector, ~0ULL});
+  }
+  {
+    auto b = nop::BindInterface(IfR::Describe::Bind(&h_describe));
+    g_serve_r = [&](Conn& c) { serve_once(c, b); };
+    explore_reentrant("fnptr", "");
+    auto bl = nop::BindInterface(IfR::Describe::Bind([](const std::string& path, int depth) { return describe_body(path, depth, ""); }));
+    g_serve_r = [&](Conn& c) { serve_once(c, bl); };
+    explore_reentrant("lambda", "");
+    SrvR srv;
+    auto bm = nop::BindInterface<SrvR*>(IfR::Describe::Bind(&SrvR::OnDescribe));
+    g_serve_r = [&](Conn& c) { serve_once(c, bm, &srv); };
+    explore_reentrant("method+instance", "#5");
+    g_serve_r = nullptr;
   }
   R.add("negative_controls_flagged", 0);
 #else
